@@ -44,6 +44,14 @@ type view struct {
 	// assembled. This chain validates every transaction of a block against the
 	// ledger as of the parent block, so they are not spendable yet.
 	fresh map[outpoint]bool
+	// freshSpent: outpoints consumed by earlier transactions of the block
+	// being assembled (what a Byzantine miner re-spends inside one block).
+	freshSpent []spentRec
+}
+
+type spentRec struct {
+	op outpoint
+	o  mOut
 }
 
 func newView() *view {
@@ -197,6 +205,9 @@ func labelTx(v *view, f *txFacts, height uint32, minFee int64, maturity uint32) 
 
 func applyTx(v *view, id common.Uint256, f *txFacts, outsPH []mOut, height uint32) {
 	for _, in := range f.ins {
+		if v.fresh != nil {
+			v.freshSpent = append(v.freshSpent, spentRec{in, v.utxo[in]})
+		}
 		delete(v.utxo, in)
 		v.spent[in] = id
 	}
